@@ -1365,15 +1365,15 @@ class Epoch(object):
             if not tt2utc and leap_seconds == 0.0:
                 tt2utc = True
         # In this case, TT to UTC correction is applied automatically, but only
-        # for dates after July 1st, 1972
+        # for dates after January 1st, 1972 (as in the UTC to TT conversion)
         if tt2utc:
-            if year > 1972 or (year == 1972 and month >= 7):
+            if year >= 1972:
                 deltasec += 32.184  # Difference between TT and TAI
                 deltasec += 10.0  # Difference between UTC and TAI in 1972
                 deltasec += Epoch.leap_seconds(year, month)
         else:  # Correction is NOT automatic
             if leap_seconds != 0.0:  # We apply provided leap seconds
-                if year > 1972 or (year == 1972 and month >= 7):
+                if year >= 1972:
                     deltasec += 32.184  # Difference between TT and TAI
                     deltasec += 10.0  # Difference between UTC-TAI in 1972
                     deltasec += leap_seconds
